@@ -275,6 +275,7 @@ FITTED = [  # (name, family for c02 builders, model factory kwargs)
     ("billing_fixed_offset", "billing", {}),
     ("hourly", "hourly", {"settings": {"seed": 7}}),
     ("hourly_solar", "hourly_solar", {"settings": {"seed": 7}}),
+    ("hourly_f32", "hourly", {"settings": {"seed": 7}}),   # every column of the baseline frame in float32 (memory-optimised frames)
     ("hourly_robust", "hourly", {"settings": {"seed": 7, "scaling_method": "robustscaler"}}),
     ("hourly_bins", "hourly", {"settings": {"seed": 7, "temperature_bin": {"method": "equal_bin_width", "n_bins": 5, "bin_width": None, "include_edge_bins": False,
                                                                      "edge_bin_rate": None, "edge_bin_percent": None}}}),
@@ -319,6 +320,8 @@ def build_fitted(name):
         frame = frame.tz_localize(None).tz_localize("-06:00")
     if name == "hourly_supp":
         frame = add_supplemental(frame)
+    if name == "hourly_f32":
+        frame = frame.astype("float32")
     if name == "daily_f32_spike":
         frame = frame.copy()
         frame.iloc[50, frame.columns.get_loc("observed")] = float(frame["observed"].max()) * 10
@@ -696,7 +699,7 @@ def run_case(case):
 def cases_B(tier):
     names = [f[0] for f in FITTED]
     if tier == "quick":
-        names = ["daily_current", "daily_f32_spike", "daily_legacy", "daily_poorfit", "daily_unc_alpha0", "billing", "daily_fixed_offset", "billing_fixed_offset", "hourly", "hourly_solar", "hourly_robust", "hourly_bins", "hourly_supp", "caltrack", "caltrack_gappy"]
+        names = ["daily_current", "daily_f32_spike", "daily_legacy", "daily_poorfit", "daily_unc_alpha0", "billing", "daily_fixed_offset", "billing_fixed_offset", "hourly", "hourly_solar", "hourly_f32", "hourly_robust", "hourly_bins", "hourly_supp", "caltrack", "caltrack_gappy"]
     out = [{"part": "B", "fit": n, "tier": tier, "depth": 3 if tier == "thorough" else 2} for n in names]
     out += [{"part": "R", "fit": f, "tier": tier} for f in (("daily", "billing", "hourly", "caltrack", "hourly_ghi_then_plain", "hourly_plain_then_ghi") if tier == "quick" else
                                                                ("daily", "billing", "hourly", "hourly_solar", "caltrack", "hourly_ghi_then_plain", "hourly_plain_then_ghi"))]
